@@ -119,6 +119,10 @@ CORPUS = [
     {'pth': 0.1, 'nu': 1.0, 'A': 0.3, 'B': 0.8, 'C': 0.5, 'ds': [4, 6, 8],
      'ps': [0.07, 0.08, 0.09, 0.1, 0.11, 0.12, 0.13], 'n': N_TRIALS, 'n_by_d': {'4': 40000, '6': 20000, '8': 10000},
      'seed': 4},
+    # modest statistics and closely spaced distances: a few bootstrap refits run away, the reported (median)
+    # threshold must still lie inside its own interval
+    {'pth': 0.155, 'nu': 0.7, 'A': 0.4, 'B': 1.0, 'C': 1.0, 'ds': [5, 7, 9],
+     'ps': [0.13, 0.138333, 0.146667, 0.155, 0.163333, 0.171667, 0.18], 'n': 1000, 'seed': 5},
 ]
 # regression (182c096): the first fit ends in a local minimum with p_th < 0; panqec used to report the mid-range
 # value as fss_params[0] because get_fit_params overwrote the caller's array
@@ -340,7 +344,7 @@ STATUS_KINDS = ['success', 'nan-param', 'nan-key', 'zero-ci', 'near-zero-ci', 'z
 def instances(ctx, salt, n_quick, n_thorough):
     rng = ctx.np_rng(salt)
     n = n_thorough if ctx.thorough else n_quick
-    return (CORPUS if ctx.thorough else [CORPUS[0], CORPUS[2]]) + [gen_instance(rng) for _ in range(n)]
+    return (CORPUS if ctx.thorough else [CORPUS[0], CORPUS[2], CORPUS[3]]) + [gen_instance(rng) for _ in range(n)]
 
 
 def correspondence(ctx):
